@@ -231,6 +231,14 @@ impl C09 {
                 tbl[a][bb] = if a == bb { 0 } else { rng.below(4) as u32 };
             }
         }
+        // "forall cost functions": in a quarter of the tables equal symbols are not free either (e.g. an N that never matches)
+        if rng.chance(1, 4) {
+            for a in 0..8 {
+                if rng.chance(1, 3) {
+                    tbl[a][a] = 1 + rng.below(2) as u32;
+                }
+            }
+        }
         let idx = |c: u8| alpha.iter().position(|&x| x == c).unwrap_or(0) & 7;
         let use_tbl = rng.chance(1, 2);
         let cfgc = cfg.clone();
